@@ -3,6 +3,7 @@
 mod generated;
 mod out;
 mod ov;
+mod own;
 mod pure_modes;
 mod rec;
 mod sweep;
@@ -110,7 +111,10 @@ fn handle(line: &str) -> J {
                 default: j["default"].as_bool().unwrap_or(true),
                 payload: ov_from_wire(&j["payload"]),
             };
-            generated::dispatch(j["tid"].as_u64().unwrap() as u32, &c)
+            match j["own"].as_str() {
+                Some(which) => own::dispatch(which, &c),
+                None => generated::dispatch(j["tid"].as_u64().unwrap() as u32, &c),
+            }
         }
         m => {
             // the pure helpers must not panic either: report a panic as an observation of its own
